@@ -21,7 +21,8 @@ Record address := mkAddr { a_params : params; a_payload : payload; a_blinder : o
 
 Inductive aerr :=
   | ABase58 (e : b58err) | ABech32 (e : b32err) | ABlech32 (e : b32err)
-  | AInvalidAddress | AInvalidSegwitV0Encoding | AInvalidBlindingPubKey | AInvalidLength | AInvalidAddressVersion.
+  | AInvalidAddress | AInvalidSegwitV0Encoding | AInvalidBlindingPubKey | AInvalidLength | AInvalidAddressVersion
+  | AInvalidWitnessProgramLength.
 Inductive ares (A : Type) := AOk (a : A) | AErr (e : aerr).
 Arguments AOk {A} a. Arguments AErr {A} e.
 
@@ -36,6 +37,11 @@ Section Addr.
 Variable H : bytes -> bytes.            (* sha256d *)
 Variable pk_valid : bytes -> bool.      (* secp256k1_zkp::PublicKey::from_slice(..).is_ok() on 33 bytes *)
 
+(* `if program.len() < 2 || program.len() > 40 { return Err(InvalidWitnessProgramLength) }` — after the blinding key was split off
+   (commit 86be616, repair of finding F5); the two bounds are regenerated from src/address.rs *)
+Definition prog_len_bad (program : bytes) : bool :=
+  (N.of_nat (length program) <? ADDR_PROG_LEN_MIN) || (ADDR_PROG_LEN_MAX <? N.of_nat (length program)).
+
 Definition from_bech32 (s : bytes) (blinded : bool) (p : params) : ares address :=
   if blinded then
     match segwit_decode cfg_blech s with
@@ -44,11 +50,15 @@ Definition from_bech32 (s : bytes) (blinded : bool) (p : params) : ares address 
         (* split_first_chunk::<33> *)
         if Nat.ltb (length data) 33 then AErr AInvalidSegwitV0Encoding
         else let pk := firstn 33 data in
-             if pk_valid pk then AOk (mkAddr p (WitnessProgram ver (skipn 33 data)) (Some pk)) else AErr AInvalidBlindingPubKey end
+             if pk_valid pk then
+               (if prog_len_bad (skipn 33 data) then AErr AInvalidWitnessProgramLength
+                else AOk (mkAddr p (WitnessProgram ver (skipn 33 data)) (Some pk)))
+             else AErr AInvalidBlindingPubKey end
   else
     match segwit_decode cfg_bech s with
     | Err e => AErr (ABech32 e)
-    | Ok (ver, data) => AOk (mkAddr p (WitnessProgram ver data) None) end.
+    | Ok (ver, data) =>
+        if prog_len_bad data then AErr AInvalidWitnessProgramLength else AOk (mkAddr p (WitnessProgram ver data) None) end.
 
 Definition from_base58 (data : bytes) (p : params) : ares address :=
   match data with
